@@ -165,4 +165,15 @@ PROPS = {
         "trusted_base": [],
         "assumptions": [],
     },
+    "C20": {
+        "claim": "Lean theorems over the module round-trip model: the four places where the emitter could introduce a post-MVP construct do not escalate — element segments of table 0 with function items are written with the MVP flag 0 even if the input named table 0 explicitly, other segment kinds keep their flags (element_encoding_not_escalated); data segments of memory 0 get flag 0 (data_encoding_not_escalated); no data-count section appears without data segments (no_data_count_without_data); empty and single-result block types are re-emitted in that form and type-index block types are simplified whenever their signature allows (simple_block_types_stay_simple, index_block_type_simplified). Operators and types are the input's own (C03/C04). Oracle: for every proposal p (and the MVP itself, and random subsets) under which the input validates without p, the output must validate without p, decided by the reference validator. The model predicts the whole output on these minimal-feature inputs exactly.",
+        "level_note": "Trusted: Lean kernel; the module model (sampled against the code); wasmparser's feature gating is the reference for 'needs' (not modelled). Partial: the theorem side covers the emitter's four choice points, not a full formal 'needs' function.",
+        "technique": "Lean 4 proof of non-escalation at the emitter's choice points + reduced-feature validation oracle",
+        "lean_modules": ["Walrus.Props.C20"],
+        "suites": [{"name": "features"}],
+        "rule": "generated modules biased to minimal feature use (pure MVP, MVP + exactly one proposal, random mix); each validated under walrus's feature set minus each of 12 proposals, under the bare MVP and under random subsets (4, thorough 24), input and output. Non-trivial: every module; distinct by request",
+        "strength": "partial: choice points proved; validity under reduced feature sets by the oracle",
+        "trusted_base": ["wasmparser 0.214 feature gating"],
+        "assumptions": [],
+    },
 }
